@@ -368,4 +368,53 @@ mod vh_posix {
         kani::cover!(mp::EXEC_ATTEMPTS == 2, "COVER/two-candidates-assembled");
         std::mem::forget(res);
     }
+
+    // ------------------------------------------------------------------
+    // C04: the poll() wrapper for time limits beyond the OS limit of 2^31-1 ms
+    // ------------------------------------------------------------------
+    /// posix::poll(&mut [], Some(d)) for d between 24.8 and 50.9 days (2^31 ms .. beyond
+    /// 2^32 ms), whole milliseconds, nothing ever ready: every OS-level wait is within i32 range and
+    /// never past the deadline, and 0 is returned only once d has elapsed.
+    #[kani::proof]
+    fn h_poll_big() {
+        mk::link_model();
+        unsafe {
+            mk::reset();
+            mk::init_std_fds();
+            mk::comm::ENABLED = true;
+            mk::time::NOW_S = 0;
+            mk::time::NOW_NS = 0;
+            let secs: u64 = kani::any();
+            let ms: u32 = kani::any();
+            kani::assume(secs >= 2_147_483 && secs <= 4_400_000 && ms < 1000);
+            let nanos: u32 = ms * 1_000_000;
+            mk::comm::DEADLINE_SET = true;
+            mk::comm::DEADLINE_S = secs as i64;
+            mk::comm::DEADLINE_NS = mk::time::NOW_NS + nanos as i64;
+            if mk::comm::DEADLINE_NS >= 1_000_000_000 {
+                mk::comm::DEADLINE_NS -= 1_000_000_000;
+                mk::comm::DEADLINE_S += 1;
+            }
+            let mut fds: [PollFd<'_>; 0] = [];
+            let r = poll(&mut fds, Some(Duration::new(secs, nanos)));
+            match r {
+                Ok(n) => {
+                    kani::cover!(n == 0, "COVER/long-wait-expired");
+                    // to the millisecond: now + 1 ms > deadline
+                    let mut s1 = mk::time::NOW_S;
+                    let mut n1 = mk::time::NOW_NS + 1_000_000;
+                    if n1 >= 1_000_000_000 {
+                        n1 -= 1_000_000_000;
+                        s1 += 1;
+                    }
+                    let elapsed = s1 > mk::comm::DEADLINE_S || (s1 == mk::comm::DEADLINE_S && n1 > mk::comm::DEADLINE_NS);
+                    vcheck!(C04, n != 0 || elapsed, "C04/timeout-only-when-elapsed: the poll wrapper reported 'nothing ready' before a time limit beyond 2^31 ms had elapsed");
+                }
+                Err(e) => {
+                    vcheck!(C04, false, "C04/long-limit-no-error: the poll wrapper failed for a time limit beyond 2^31 ms");
+                    std::mem::forget(e);
+                }
+            }
+        }
+    }
 }
